@@ -496,6 +496,64 @@ func genRoutes(repo, out string) {
 	}
 	fmt.Fprintf(&sb, "\n/-- the handlers wrapped around the route table when it is handed to `http.ListenAndServe`, outermost first -/\ndef wrappers : List String := %s\n", leanStrList(wrappers))
 	fmt.Fprintf(&sb, "\n/-- statements of those wrappers that write through the request they pass on (its address, headers, cookies) -/\ndef wrapperRequestWrites : List String := %s\n", leanStrList(writes))
+	// ---- `-print-schema`: what the block guarded by the flag prints. Every `for … range X` inside `if printSchema { … }`
+	// with the source of X (the schema the program prints is the schema `config.DDL` computes — the merged one —
+	// or something else).
+	{
+		var printed []string
+		ast.Inspect(f, func(n ast.Node) bool {
+			is, ok := n.(*ast.IfStmt)
+			if !ok || src(is.Cond) != "printSchema" {
+				return true
+			}
+			ast.Inspect(is.Body, func(m ast.Node) bool {
+				if rs, ok := m.(*ast.RangeStmt); ok {
+					printed = append(printed, src(rs.X))
+				}
+				return true
+			})
+			return false
+		})
+		fmt.Fprintf(&sb, "\n/-- what `shovel -print-schema` ranges over when it prints: the source of every `range` expression in the block -/\ndef printSchemaRanges : List String := %s\n", leanStrList(printed))
+	}
+	// ---- the file configuration on its way from the decoder to the manager: every statement of main() that assigns to
+	// `conf` (or a field of it) and every call that is handed `conf`, `&conf` or a field of it, in source order.
+	{
+		var uses []string
+		for _, d := range f.Decls {
+			fd, ok := d.(*ast.FuncDecl)
+			if !ok || fd.Name.Name != "main" || fd.Body == nil {
+				continue
+			}
+			isConf := func(e ast.Expr) bool {
+				t := src(e)
+				return t == "conf" || t == "&conf" || strings.HasPrefix(t, "conf.") || strings.HasPrefix(t, "&conf.")
+			}
+			ast.Inspect(fd.Body, func(n ast.Node) bool {
+				switch x := n.(type) {
+				case *ast.AssignStmt:
+					for _, l := range x.Lhs {
+						if isConf(l) {
+							uses = append(uses, "assign: "+src(x))
+						}
+					}
+				case *ast.RangeStmt:
+					if isConf(x.X) {
+						uses = append(uses, "range: "+src(x.X))
+					}
+				case *ast.CallExpr:
+					for _, a := range x.Args {
+						if isConf(a) {
+							uses = append(uses, "call: "+src(x))
+							break
+						}
+					}
+				}
+				return true
+			})
+		}
+		fmt.Fprintf(&sb, "\n/-- main(): assignments to the file configuration and calls that receive it, in source order -/\ndef mainConfUses : List String := %s\n", leanStrList(uses))
+	}
 	// ---- the cookie key: every expression that reaches into the session configuration (h.sess / session.Config
 	// values), by enclosing function. The key pair lives in it; whoever learns either half can mint a cookie.
 	if wf := parse(repo, "shovel/web/web.go"); wf != nil {
